@@ -75,6 +75,11 @@ def states(tier):
         for ss in (0, 1):
             for u in ((0, 0, 0), (1, 54321, 0)):
                 S.append(dict(base, forked=fk, setsid=ss, ids=u + (1, 0, 54321), stdin='pty', ptyowner=1))
+    # (b8) the image that evaluates the data sources was itself exec'ed in the state (secure-execution mode when real != effective ids)
+    for u, g in (((0, 0, 0), (0, 0, 0)), ((1, 54321, 54321), (0, 0, 0)), ((0, 0, 0), (1, 54321, 54321)), ((54321, 1, 1), (54321, 1, 1)), ((1, 0, 0), (1, 1, 1))):
+        for e in ('three', 'special'):
+            for su, ln in ((0, 0), (1, 1)):
+                S.append(dict(base, ids=u + g, env=e, sudo=su, logname=ln, exec2=1))
     # (b5) ancestor chain of length one: orphaned process (parent is init / a subreaper), with and without a renamed chain above
     for ch in ('', 'alpha', 'alpha/beta b'):
         for ss in (0, 1):
@@ -89,7 +94,7 @@ def states(tier):
 
 def spec_of(st, ds, work):
     parts = ['ids=%s' % ','.join(map(str, st['ids'])), 'setsid=%d' % st['setsid'], 'cwd=' + st['cwd'], 'stdin=' + st['stdin'], 'env=' + st['env'], 'sudo=%d' % st['sudo'], 'logname=%d' % st['logname'],
-             'host=' + st['host'], 'ptyowner=%d' % st['ptyowner'], 'orphan=%d' % st.get('orphan', 0), 'tz=' + st.get('tz', 'UTC'), 'newpgrp=%d' % st.get('newpgrp', 0), 'pwd=' + st.get('pwd', 'none'), 'forked=%d' % st.get('forked', 0), 'work=' + work, 'ds=' + ','.join(hx(d) for d in ds)]
+             'host=' + st['host'], 'ptyowner=%d' % st['ptyowner'], 'orphan=%d' % st.get('orphan', 0), 'tz=' + st.get('tz', 'UTC'), 'newpgrp=%d' % st.get('newpgrp', 0), 'pwd=' + st.get('pwd', 'none'), 'exec2=%d' % st.get('exec2', 0), 'forked=%d' % st.get('forked', 0), 'work=' + work, 'ds=' + ','.join(hx(d) for d in ds)]
     if st['chain']:
         parts.append('chain=' + '/'.join(hx(n) for n in st['chain'].split('/')))
     return ';'.join(parts)
@@ -235,7 +240,7 @@ def run(ck):
     samples = []
     for st, (out, r, reports) in zip(S, pmap(one, S)):
         evals += 1
-        tag = 'tz=%s,pg=%d,pwd=%s,forked=%d,' % (st.get('tz', 'UTC'), st.get('newpgrp', 0), st.get('pwd', 'none'), st.get('forked', 0)) + 'ids=%s,sid=%d,cwd=%s,stdin=%s,env=%s,sudo=%d,logname=%d,host=%s,chain=%s,orphan=%d' % ('/'.join(map(str, st['ids'])), st['setsid'], st['cwd'], st['stdin'], st['env'], st['sudo'], st['logname'], st['host'][:8], st['chain'], st.get('orphan', 0))
+        tag = ('exec2,' if st.get('exec2') else '') + 'tz=%s,pg=%d,pwd=%s,forked=%d,' % (st.get('tz', 'UTC'), st.get('newpgrp', 0), st.get('pwd', 'none'), st.get('forked', 0)) + 'ids=%s,sid=%d,cwd=%s,stdin=%s,env=%s,sudo=%d,logname=%d,host=%s,chain=%s,orphan=%d' % ('/'.join(map(str, st['ids'])), st['setsid'], st['cwd'], st['stdin'], st['env'], st['sudo'], st['logname'], st['host'][:8], st['chain'], st.get('orphan', 0))
         if out is None or reports:
             ck.violation('C12:abort:%s' % tag, {'state': st, 'rc': r.returncode, 'stderr': r.stderr.decode('latin-1')[-400:], 'sanitizer': reports[:1]})
             continue
